@@ -106,7 +106,7 @@ Proof.
   induction acts as [|a r IH]; simpl; intros s j s' Hs H.
   - inversion H. subst. exact Hs.
   - destruct (guardb V0 true a s) eqn:G; [|discriminate].
-    apply (IH _ _ _ (GR_step V0 true s _ Hs (guardb_sound V0 true a s G)) H).
+    apply (IH _ _ _ (gsteps_reachable V0 true s _ Hs (guardb_sound V0 true a s G)) H).
 Qed.
 
 (* implicit flushes: the abstract nodes catch up with the observed durable prefixes *)
